@@ -14,10 +14,10 @@ PROPS['C01'] = dict(
     assumptions=['ASan+UBSan(bounds,null,div0) report = memory error; CPU budget 20 s/case stands in for "time proportional to input"',
                  'single allocation request > 256 MiB for an input <= 64 KiB counts as disproportionate memory'],
     stages=[
-        dict(name='fuzz', variant='asan', harness='c01_music.cpp', quick=16000, thorough=250000),
+        dict(name='fuzz', variant='asan', harness='c01_music.cpp', quick=16000, thorough=120000),
         dict(name='sweep', variant='asan', harness='c01_music.cpp', quick=8000, thorough=8000, opts=dict(files=4)),
         dict(name='sweep-all', variant='asan', harness='c01_music.cpp', quick=0, thorough=24000, opts=dict(files=12)),
-        dict(name='fuzz-nd', variant='asan-nd', harness='c01_music.cpp', quick=0, thorough=100000),
+        dict(name='fuzz-nd', variant='asan-nd', harness='c01_music.cpp', quick=0, thorough=40000),
         dict(name='memcheck', variant='plain-d', harness='c01_music.cpp', quick=800, thorough=12000, budget=150, wall=2400,
              wrapper=['valgrind', '-q', '--error-exitcode=79', '--exit-on-first-error=yes', '--track-origins=no', '--leak-check=no']),
     ],
